@@ -8,6 +8,8 @@ import vf
 def run(ctx, cfgbase="MC_LogSystem_life", simnum=(1500, 40000), mode=("alt", "both")):
     thorough = ctx.tier == "thorough"
     rep = vf.Report(ctx)
+    # the tables LogSystem hard-codes for its two configurations are what Routing.tla / Levels.tla derive
+    ctx.tlc("Compose", "Compose", timeout=300, workers=2)
     r1 = ctx.tlc("LogSystem", cfgbase + ("_t" if thorough else "_q"), timeout=3000)
     rs = ctx.tlc("LogSystem", cfgbase + "_sim", simulate="num=%d" % simnum[1 if thorough else 0],
                  depth=10, workers=1, timeout=1500)
